@@ -30,6 +30,7 @@ def run(ctx):
         ctx.guard("C03", "delegate", lambda: gen.finalizers_delegate(ctx, prog))
         ctx.guard("C03", "declared", lambda: gen.ok_effects_set_fixed(ctx, prog))
         ctx.guard("C03", "summaries", lambda: summary.check(ctx, prog, 'Generator::(input_size|new)$|<internals::generate::Generator as core::(default::Default|ops::AddAssign)|generate_easy', floor=2))
+        ctx.guard("C03", "path summaries", lambda: summary.check_paths(ctx, prog, 'Generator::(input_size|new)$|<internals::generate::Generator as core::(default::Default|ops::AddAssign)|generate_easy', floor=0))
         ctx.guard("C03", "traits", lambda: vis.trait_census(ctx, prog, scope='for internals::generate::Generator$'))
         if c.startswith("unsafe"):
             ctx.guard("C03", "mirror", lambda: engine.mirror(ctx, prog))
